@@ -117,15 +117,17 @@ class LinkerToDataFrames(FunctionContract):
     props = ('C19',)
 
     def scenarios(self):
-        return ['k0', 'k1', 'k2']
+        return ['k0', 'k1', 'k2', 'k3-hashable-ids']
 
     def setup(self, interp, scenario):
         ctx = interp.ctx
         k = int(scenario[1])
         flags = {f: SBool(ctx.fresh(f, BOOL)) for f in ('status', 'iterations', 'include_internal')}
         e = {'flags': flags, 'calls': [], 'tables': {}}
-        subs = {f's{i}': SObj(BaseModel, {}, label=f's{i}') for i in range(k)}
-        lk = SObj(BaseLinker, {'name': 'top', 'submodels': subs}, label='linker')
+        # submodel identifiers (and the linker's own name) are arbitrary hashables: strings, integers, tuples
+        ids = [f's{i}' for i in range(k)] if 'hashable' not in scenario else [1, ('uk', 'households'), 's2']
+        subs = {sid: SObj(BaseModel, {}, label=f's{i}') for i, sid in enumerate(ids)}
+        lk = SObj(BaseLinker, {'name': 'top' if 'hashable' not in scenario else 0, 'submodels': subs}, label='linker')
         e.update(subs=subs, linker=lk)
 
         def to_df(interp_, o, args, kwargs, node):
@@ -143,7 +145,7 @@ class LinkerToDataFrames(FunctionContract):
             ctx.prove(False, 'does_not_raise', 'raises')
             return
         r = out.value
-        want_keys = ['top'] + list(e['subs'])
+        want_keys = [e['linker'].fields['name']] + list(e['subs'])
         ctx.prove(z3.BoolVal(isinstance(r, dict) and list(r.keys()) == want_keys), 'one_table_for_the_linker_and_one_per_submodel', 'ensures')
         objs = [e['linker']] + list(e['subs'].values())
         ctx.prove(z3.BoolVal([c[0] for c in e['calls']] == objs), 'each_member_exported_exactly_once', 'ensures')
